@@ -69,7 +69,9 @@ type retRec struct {
 
 type Exec struct {
 	E              *Env
+	frameAllowed   map[string]*frameAllow
 	epochMerge     map[int]*epochMergeRec
+	eachVisited    *Term // inside an `each N invariant`: the set of elements already visited
 	LockOnly       bool
 	curIns         ssa.Instruction
 	usableLS       map[string]*LoopSpec
@@ -646,6 +648,34 @@ func (X *Exec) genCandidates(fr *Frame, li *loopInfo, entry *State) []*Candidate
 	if X.LockOnly {
 		// lock sweep: only the lock-state candidates matter (and the cheap cell bounds above)
 		return out
+	}
+	// frame: "outside the modifies list, what existed at function entry is as it was at function entry"
+	if X.frameActive() && fr == X.TopFrame {
+		var hs []string
+		for hn := range ms.heaps {
+			hs = append(hs, hn)
+		}
+		if ms.all {
+			for hn := range X.heapSorts {
+				if _, in := ms.heaps[hn]; !in {
+					hs = append(hs, hn)
+				}
+			}
+		}
+		sort.Strings(hs)
+		for _, hn := range hs {
+			hn := hn
+			if !frameHeapName(hn) {
+				continue
+			}
+			out = append(out, &Candidate{Desc: "frame of " + hn + " as at function entry", Alive: true, Eval: func(fr *Frame, st *State) *Term {
+				g := fr.Exec.frameGoal(st, hn)
+				if g == nil {
+					return ts.True()
+				}
+				return g
+			}})
+		}
 	}
 	// pairs of modified integer cells: a <= b, a <= b+1
 	if len(allocs) <= 6 {
